@@ -322,6 +322,10 @@ def run(ck):
     ck.attempt(rule_search_direction)
     ck.attempt(rule_round_robin)
     ck.attempt(rule_uncontrolled)
+    # the per-station facts a scheduler asks for (maximum / minimum pilot, allowable levels, voltage, phase) are those of the station
+    # it names (shared with C13)
+    from .c13 import rule_accessors
+    ck.attempt(rule_accessors, rid="C08.R8")
     # "the largest pilot that is feasible": the feasibility oracle the searches consult lets a constraint row pass only on its mode's
     # own comparison and answers True only after every row (rules of the algorithm-side checker, shared with C06 / C07)
     from .c06 import rule_utils, rule_row_acceptance
